@@ -111,6 +111,8 @@ mut("eq_random_bytereader_fast_path_correct", "scalar.go", "\t\t_, err := io.Rea
     "Random reads byte by byte when the source is an io.ByteReader, checking every error: in spec; exercises the ByteReader shape of the scripted device and its deferred errors")
 mut("c18_random_bytereader_last_error_only", "scalar.go", "\t\t_, err := io.ReadFull(rand.Reader, buf[:])\n\t\tif err != nil {\n\t\t\tpanic(err)\n\t\t}\n", "\t\tif br, ok := rand.Reader.(io.ByteReader); ok {\n\t\t\tvar err error\n\n\t\t\tfor i := range buf {\n\t\t\t\tbuf[i], err = br.ReadByte()\n\t\t\t}\n\n\t\t\tif err != nil {\n\t\t\t\tpanic(err)\n\t\t\t}\n\t\t} else if _, err := io.ReadFull(rand.Reader, buf[:]); err != nil {\n\t\t\tpanic(err)\n\t\t}\n", ["C18"],
     "the same fast path checking only the last error")
+mut("eq_element_larger_than_a_page", "element.go", "type Element struct {\n\t_       disallowEqual\n", "type Element struct {\n\t_       disallowEqual\n\tpad     [5000]byte\n", [],
+    "Element carries 5000 bytes of never-written padding: larger than a guarded page, so variables and the shared pool stay on the heap")
 mut("c16only_random_prefetch_two_blocks", "scalar.go", "\t\t_, err := io.ReadFull(rand.Reader, buf[:])\n\t\tif err != nil {\n\t\t\tpanic(err)\n\t\t}\n", "\t\tnextEntropyBlock(&buf)\n", ["C16"],
     "Random draws 64 bytes at a time into a mutex-protected package buffer and hands out 32-byte blocks in order, dropping everything on failure: in spec for C18 (each delivered block used once, in order), but it is mutable package state (C16)",
     extra=[("scalar.go", "// Random sets the current Scalar to a new random Scalar and returns it.", "var entropyBuf struct {\n\tsync.Mutex\n\tbuf  [64]byte\n\thave int\n\toff  int\n}\n\nfunc nextEntropyBlock(out *[32]byte) {\n\tentropyBuf.Lock()\n\tdefer entropyBuf.Unlock()\n\n\tif entropyBuf.have-entropyBuf.off < 32 {\n\t\tentropyBuf.have, entropyBuf.off = 0, 0\n\n\t\tif _, err := io.ReadFull(rand.Reader, entropyBuf.buf[:]); err != nil {\n\t\t\tpanic(err)\n\t\t}\n\n\t\tentropyBuf.have = 64\n\t}\n\n\tcopy(out[:], entropyBuf.buf[entropyBuf.off:entropyBuf.off+32])\n\tentropyBuf.off += 32\n}\n\n// Random sets the current Scalar to a new random Scalar and returns it.", 1),
